@@ -48,6 +48,14 @@ class _Unrecognised(Exception):
 
 
 def run(prog, res):
+  from ..rules import numeric_opts as _no
+  _no.check(prog, res, [prog.function(q) for q in (
+      'pwl_calibration_layer.PWLCalibration.call',
+      'pwl_calibration_layer.PWLCalibration.build',
+      'categorical_calibration_layer.CategoricalCalibration.call',
+      'categorical_calibration_layer.CategoricalCalibration.build',
+      'pwl_calibration_lib.compute_interpolation_weights')])
+  res.floor('N0', 5)
   from ..rules import dtypes, validate
   dtypes.selfcheck()
   _cl = validate.call_closure(prog, [prog.function(q) for q in ('pwl_calibration_layer.PWLCalibration.call', 'categorical_calibration_layer.CategoricalCalibration.call')],
@@ -79,7 +87,7 @@ def run(prog, res):
       res.check(not probs, rule, '%s|%s' % (q, key), fn.loc(), ok_text,
                 '; '.join(probs))
   res.floor('E1', 3)
-  res.floor('E2', 6)
+  res.floor('E2', 7)
   res.floor('E3', 2)
   res.floor('E4', 2)
   _missing_sources(prog, res)
@@ -483,6 +491,35 @@ def _keypoints_inputs(prog, fn):
              'axis=0)')
   items.append(('fixed-last', 'last keypoint = last interpolation keypoint + '
                 'last length', p2))
+  # learned branch: the closing keypoint is keypoint_min + sum(lengths), either
+  # as last interpolation keypoint + last length or as min + reduce_sum
+  learned = [s for s in ak if 'interpolation_keypoints' in names_read(s.value)
+             and 'self._interpolation_keypoints' not in names_read(s.value)]
+  if not learned:
+    raise _Unrecognised('learned branch of all_keypoints')
+  v = learned[0].value
+  if not (_ext(prog, fn, v) == 'tf.concat' and isinstance(
+      v.args[0], (ast.List, ast.Tuple)) and len(v.args[0].elts) == 2):
+    raise _Unrecognised('learned all_keypoints: %s' % norm_text(v)[:50])
+  last = v.args[0].elts[1]
+  reads = names_read(last)
+  p3 = []
+  sums = [c for c in ast.walk(last) if _ext(prog, fn, c) == 'tf.reduce_sum'
+          and c.args and dotted(c.args[0]) == 'lengths']
+  if sums:
+    if 'self._keypoint_min' not in reads:
+      p3.append('the closing keypoint is `%s`: the sum of the lengths without '
+                'the first keypoint (self._keypoint_min), so the reported '
+                'last keypoint is off by the left end of the range' %
+                norm_text(last)[:60])
+  elif 'interpolation_keypoints' in reads and 'lengths' in reads:
+    p3 += _bad(last, 'learned closing keypoint',
+               'interpolation_keypoints[:, -1:] + lengths[:, -1:]',
+               'lengths[:, -1:] + interpolation_keypoints[:, -1:]')
+  else:
+    raise _Unrecognised('learned closing keypoint: %s' % norm_text(last)[:50])
+  items.append(('learned-last', 'learned closing keypoint = keypoint_min + '
+                'sum of the lengths', p3))
   return items
 
 
